@@ -13,6 +13,8 @@
      TClosed    c.close() was called: conn.run's request channel is closed, its deferred pc.Close()
                 closes the socket and the goroutine ends
      TFailed    set-up failed, no connection came into being
+   A connection in TBusy leaves it by the end of its request (TRelease), a connection error (TBroken) or
+   the request's I/O deadline (TDeadline): every request handed to a connection carries a deadline.
    There is no other place: the helper's  case <-ctx.Done(): if !g.releaseConn(c) { c.close() }
    is what keeps a connection whose set-up completes after its requester left AND after the pool was
    closed from being neither pooled nor closed (its conn.run goroutine would wait for requests
@@ -32,6 +34,7 @@ Inductive tclabel :=
 | TSetupFail (i : nat)     (* connect returned an error *)
 | TRelease (i : nat)       (* conn.run finished a request: if !g.releaseConn(c) { break } *)
 | TBroken (i : nat)        (* conn.run leaves its loop on a connection error *)
+| TDeadline (i : nat)      (* the I/O deadline of the request being served fires: pc.RoundTrip fails, conn.run breaks *)
 | TIdleTimeout (i : nat)   (* the idle timer: if g.removeConn(c) { c.close() } *)
 | TClosePool.              (* closeIdleConns: take every idle connection, closed = true, close them *)
 
@@ -58,6 +61,14 @@ Definition tc_step (s : tcstate) (l : tclabel) : option tcstate :=
   | TSetupFail i => match nth_error (tc_conns s) i with Some (TSetup _) => Some (tc_set i TFailed s) | _ => None end
   | TRelease i => match nth_error (tc_conns s) i with Some TBusy => Some (tc_set i (tc_release s) s) | _ => None end
   | TBroken i => match nth_error (tc_conns s) i with Some TBusy => Some (tc_set i TClosed s) | _ => None end
+  (* OBLIGATION behind this label (not visible to the skeleton translator, exercised on the implementation by
+     the refresh-silent scenarios of harness/cmd/c09r): the context stored in the connRequest is the one whose
+     deadline bounds the request — conn.roundTrip sets the connection's I/O deadline from cr.ctx.Deadline()
+     ONLY.  sendRequest passes the caller's context; connPool.discover must pass the per-refresh context
+     built with context.WithTimeout(ctx, p.metadataTTL) and not the pool's own context, which has no
+     deadline: otherwise a refresh the broker never answers keeps its connection in TBusy for ever — it
+     is not idle, so closeIdleConns (TClosePool) does not reach it — and every refresh period adds one. *)
+  | TDeadline i => match nth_error (tc_conns s) i with Some TBusy => Some (tc_set i TClosed s) | _ => None end
   | TIdleTimeout i => match nth_error (tc_conns s) i with Some TPooled => Some (tc_set i TClosed s) | _ => None end
   | TClosePool => Some (mkTc true (map (fun c => match c with TPooled => TClosed | x => x end) (tc_conns s)))
   end.
